@@ -103,9 +103,14 @@ def main():
                 json.dump(results, f, indent=1, sort_keys=True)
         print(f'{len(paths) - bad}/{len(paths)} behaviour-preserving changes left all twenty quick checks quiet')
         sys.exit(1 if bad else 0)
-    if not args and not FORCE:
-        # full run: keep the table that DESIGN.md section 9 is generated from (tools/mkcatchtable.py)
-        with open(os.path.join(HERE, 'selftest_results.json'), 'w') as f:
+    if not FORCE and tier == 'quick':
+        # keep the table that DESIGN.md section 9 is generated from (tools/mkcatchtable.py): a full run rewrites it, a run on named patches updates their entries
+        rp = os.path.join(HERE, 'selftest_results.json')
+        if args and os.path.exists(rp):
+            merged = json.load(open(rp))
+            merged.update(results)
+            results = {k: v for k, v in merged.items() if os.path.exists(os.path.join(HERE, k))}
+        with open(rp, 'w') as f:
             json.dump(results, f, indent=1, sort_keys=True)
     print(f'{len(paths) - bad}/{len(paths)} deliberate breaks caught with the repository tests still passing')
     sys.exit(1 if bad else 0)
